@@ -454,14 +454,50 @@ Proof. intros g H. unfold gsave, gload. rewrite H. reflexivity. Qed.
 Theorem genesis_invalid_refused : forall f,
   (forall g, f = GJson g -> gvalidate g = false) -> gload f = None.
 Proof.
-  intros [| |g] H; cbn; try reflexivity.
+  intros [| |g|g n m] H; cbn; try reflexivity.
   rewrite (H g eq_refl). reflexivity.
 Qed.
 
 Theorem genesis_load_sound : forall f g, gload f = Some g -> f = GJson g /\ gvalidate g = true.
 Proof.
-  intros [| |g'] g H; cbn in H; try discriminate.
+  intros [| |g'|g' n m] g H; cbn in H; try discriminate.
   destruct (gvalidate g') eqn:E; [|discriminate]. inversion H. subst. split; [reflexivity | exact E].
+Qed.
+
+(* ---- the text at the path as a sequence of top-level items ------------------------------------------- *)
+(* a complete genesis object followed by anything that is not white space is refused, however valid the
+   object in front is *)
+Theorem genesis_trailing_refused : forall g next more, gload (GSeveral g next more) = None.
+Proof. reflexivity. Qed.
+
+Theorem genesis_text_trailing_refused : forall g next more, gload (gtext (IObj g :: next :: more)) = None.
+Proof. reflexivity. Qed.
+
+(* LoadGenesis returns a genesis only when the text consists of exactly ONE item, that item is an object
+   decoding to the genesis returned, and it is valid *)
+Theorem genesis_text_load_sound : forall items g,
+  gload (gtext items) = Some g -> items = [IObj g] /\ gvalidate g = true.
+Proof.
+  intros [|[g'|] [|n m]] g H; cbn in H; try discriminate.
+  destruct (gvalidate g') eqn:E; [|discriminate]. inversion H. subst. split; [reflexivity | exact E].
+Qed.
+
+Theorem genesis_text_load_iff : forall items g,
+  gload (gtext items) = Some g <-> items = [IObj g] /\ gvalidate g = true.
+Proof.
+  intros items g. split; [apply genesis_text_load_sound|].
+  intros [-> H]. cbn. rewrite H. reflexivity.
+Qed.
+
+(* appending anything (not white space) to a non-empty text gives a refused text — also when the text in front
+   was an accepted one: acceptance looks at the whole text *)
+Theorem genesis_text_append_refused : forall first items extra,
+  extra <> [] -> gload (gtext (first :: items ++ extra)%list) = None.
+Proof.
+  intros first items extra Hne.
+  destruct (gload (gtext (first :: items ++ extra)%list)) eqn:E; [|reflexivity].
+  apply genesis_text_load_sound in E. destruct E as [E _]. inversion E as [[H1 H2]].
+  destruct items; [destruct extra; [contradiction|discriminate] | discriminate].
 Qed.
 
 (* saving over whatever was at the path (a longer or shorter genesis, junk, nothing) and loading gives the
@@ -517,4 +553,4 @@ Qed.
 
 Theorem genesis_create_keeps_existing : forall f c i now p,
   f <> GAbsent -> gcreate f c i now p = (f, false).
-Proof. intros [| |g] c i now p H; [contradiction | reflexivity | reflexivity]. Qed.
+Proof. intros [| |g|g n m] c i now p H; [contradiction | reflexivity | reflexivity | reflexivity]. Qed.
